@@ -1257,7 +1257,7 @@ _BTree_setstate(BTree *self, PyObject *state, int noval)
         else
         {
             if (!(SameType_Check(self, v) ||
-                  PyObject_IsInstance(v, (PyObject *)leaftype)))
+                  PyObject_TypeCheck(v, leaftype)))
             {
                 PyErr_Format(PyExc_TypeError,
                              "tree child %s is neither %s nor %s",
@@ -1276,7 +1276,7 @@ _BTree_setstate(BTree *self, PyObject *state, int noval)
     if (!firstbucket)
         firstbucket = (PyObject *)self->data->child;
 
-    if (!PyObject_IsInstance(firstbucket, (PyObject *)leaftype))
+    if (!PyObject_TypeCheck(firstbucket, leaftype))
     {
         PyErr_SetString(PyExc_TypeError,
                         "No firstbucket in non-empty BTree");
